@@ -12,6 +12,7 @@ mod host;
 mod lexer;
 mod numeric;
 mod roles;
+mod scope;
 mod session;
 mod sources;
 
@@ -67,6 +68,7 @@ fn main() {
         | "replay-host" => host::replay_host(&args[2], &args[3]),
         | "classifier-mutants" => host::classifier_mutants(&args[2], args[3].parse().unwrap()),
         | "role-table" => host::role_table(&args[2]),
+        | "replay-scope" => scope::replay_scope(&args[2], &args[3]),
         | "corpus-run" => {
             // zyconf corpus-run OUT MUTANTS_PER_FILE MAX_STEPS
             corpus::corpus_run(&args[2], args[3].parse().unwrap(), args[4].parse().unwrap());
